@@ -177,6 +177,8 @@ class UpdateContext():
         the update argument is missing in *value*'s context.
         """
         import jinja2
+        # lena.flow can't be imported at the module level (circular import)
+        import lena.flow
         # data, context = value
         data, context = lena.flow.get_data_context(value)
         if isinstance(self._update, (str, jinja2.Template)):
